@@ -290,7 +290,7 @@ impl Prop for Rejections {
         "C08/rejections".into()
     }
     fn rule(&self) -> String {
-        "a valid enum with one defect injected: an explicit value above / below the base's range, a negative value for an unsigned base, an implicit value that runs past the maximum (max followed by an implicit variant), a #[default] marker without defaultable, defaultable without a marker, two markers; plus the unmodified enum as control. Oracle: Err for every defect, Ok for the control".into()
+        "a valid enum with one defect injected: an explicit value above / below the base's range (also written with a u64/usize suffix and the top bit of the 64-bit pattern set), a negative value for an unsigned base, an implicit value that runs past the maximum (max followed by an implicit variant), a #[default] marker without defaultable, defaultable without a marker, two markers; plus the unmodified enum as control. Oracle: Err for every defect, Ok for the control".into()
     }
     fn gen(&self, t: &mut Tape) -> RejCase {
         let w = if t.chance(1, 2) { 8 } else { 4 };
@@ -350,6 +350,13 @@ impl Prop for Rejections {
                     }
                     what = "defaultable without a marker".into();
                 }
+            }
+            7 if hi < (1i128 << 63) => {
+                // a literal with a type suffix whose 64-bit pattern has the top bit set: far above the range of
+                // every base type but u64/u128/i128, whatever the suffix says
+                let v = (1i128 << 63) + t.below(1 << 20) as i128 * 0x1_0000_0001 % (1i128 << 63);
+                e.variants[k].value = Some(Num { v, sp: t.below(6) as u8 + 6 * (1 + t.below(2) as u8) });
+                what = "suffixed value above the range".into();
             }
             6 => {
                 if e.defaultable && e.variants.len() >= 2 {
